@@ -39,10 +39,11 @@ const (
 	hkBBReuse
 	hkDetMap
 	hkInvalidType
+	hkSharedFuncs
 	hkNum
 )
 
-var hkNames = []string{"Marshal", "MarshalWrite", "Unmarshal", "UnmarshalRead", "Format", "v1", "EncoderProgram", "Big", "Deep", "BytesBufferReuse", "DeterministicMap", "InvalidStructType"}
+var hkNames = []string{"Marshal", "MarshalWrite", "Unmarshal", "UnmarshalRead", "Format", "v1", "EncoderProgram", "Big", "Deep", "BytesBufferReuse", "DeterministicMap", "InvalidStructType", "SharedFuncs"}
 
 // HistSpec is one self-contained call. Everything it needs is fixed at plan
 // time from its own tape stream; executing it twice must give the same
@@ -97,7 +98,7 @@ func (o outcome) String() string {
 func (sc *Hist) planSpec(t *core.Tape, env *Env, idx int, beh map[int]peers.Behaviour) HistSpec {
 	s := t.S(fmt.Sprintf("call/%d/spec", idx))
 	sp := HistSpec{}
-	sp.Kind = s.Weighted(4, 3, 4, 3, 2, 1, 2, 1, 1, 1, 1, 1)
+	sp.Kind = s.Weighted(4, 3, 4, 3, 2, 1, 2, 1, 1, 1, 1, 1, 3)
 	sp.KindName = hkNames[sp.Kind]
 	sp.Opts = genArshalOpts(s)
 	switch sp.Kind {
@@ -197,6 +198,10 @@ func (sc *Hist) planSpec(t *core.Tape, env *Env, idx int, beh map[int]peers.Beha
 	case hkInvalidType:
 		sp.Sub = s.Draw(12)
 		sp.Desc = fmt.Sprintf("Marshal/Unmarshal of an invalid struct type (variant %d) at position %d", sp.Sub%3, sp.Sub/3)
+	case hkSharedFuncs:
+		sp.Sub = s.Draw(len(sharedSubs))
+		sp.Input = sharedInputs[s.Draw(len(sharedInputs))]
+		sp.Desc = sharedSubs[sp.Sub] + " with the history's one *Marshalers/*Unmarshalers/Options value"
 	case hkDetMap:
 		sp.Sub = 2 + s.Draw(40)
 		sp.Desc = fmt.Sprintf("Deterministic(true) over maps with %d keys built in two insertion orders", sp.Sub)
@@ -373,10 +378,128 @@ type snapshot struct {
 }
 
 type histRun struct {
-	env   *Env
-	plan  *HistPlan
-	yield func(string)
-	snaps []snapshot
+	env    *Env
+	plan   *HistPlan
+	yield  func(string)
+	snaps  []snapshot
+	shared *sharedFuncs // nil: every call builds its own (baselines)
+}
+
+// sharedFuncs are the caller-owned option values that a program typically
+// builds once and passes to every call: they carry a per-value cache inside
+// the library, which must not make one call's result depend on another's.
+type sharedFuncs struct {
+	m    *json.Marshalers
+	u    *json.Unmarshalers
+	opts json.Options
+}
+
+func newSharedFuncs() *sharedFuncs {
+	f := &sharedFuncs{}
+	f.m = json.JoinMarshalers(
+		json.MarshalToFunc(func(enc *jsontext.Encoder, v int) error {
+			if v%2 == 0 {
+				return errors.ErrUnsupported
+			}
+			return enc.WriteToken(jsontext.String(fmt.Sprint("odd:", v)))
+		}),
+		json.MarshalFunc(func(v string) ([]byte, error) {
+			return jsontext.AppendQuote(nil, strings.ToUpper(v))
+		}),
+	)
+	f.u = json.JoinUnmarshalers(
+		json.UnmarshalFromFunc(func(dec *jsontext.Decoder, p *int) error {
+			if dec.PeekKind() != '"' {
+				return errors.ErrUnsupported
+			}
+			tok, err := dec.ReadToken()
+			if err != nil {
+				return err
+			}
+			*p = len(tok.String())
+			return nil
+		}),
+		json.UnmarshalFromFunc(func(dec *jsontext.Decoder, p *string) error {
+			if dec.PeekKind() != '0' {
+				return errors.ErrUnsupported
+			}
+			v, err := dec.ReadValue()
+			if err != nil {
+				return err
+			}
+			*p = "number:" + string(v)
+			return nil
+		}),
+	)
+	f.opts = json.JoinOptions(json.WithMarshalers(f.m), json.WithUnmarshalers(f.u), json.Deterministic(true), jsontext.AllowDuplicateNames(true))
+	return f
+}
+
+type histInner struct {
+	X int
+	S string
+}
+
+// histEmb embeds a pointer to an unexported struct type: when nil, the
+// library cannot allocate it (v2 reports an error; v1 semantics too).
+type histEmb struct {
+	*histInner
+	Y int
+}
+
+type histPlain struct {
+	X int
+	S string
+	L []int
+	M map[string]string
+}
+
+var sharedSubs = []string{"Unmarshal plain struct", "Unmarshal (v1 semantics) into nil embedded *unexported", "Unmarshal into allocated embedded *unexported", "Marshal plain struct", "Unmarshal map[string]int", "Unmarshal (v1 options) plain struct", "Unmarshal into nil embedded *unexported", "Marshal []any"}
+var sharedInputs = []string{`{"X":5,"S":"abc","L":[1,"22",3],"M":{"a":"b","c":7}}`, `{"X":"five","S":12,"Y":3}`, `{"S":"s","X":4,"Y":"yy","L":null}`, `{"X":true}`, `{"X":1,"X":"zz"}`, `{"Y":2,"X":7}`}
+
+func (h *histRun) execShared(sp *HistSpec) outcome {
+	f := h.shared
+	if f == nil {
+		f = newSharedFuncs()
+	}
+	in := []byte(sp.Input)
+	switch sp.Sub {
+	case 0:
+		var v histPlain
+		err := json.Unmarshal(in, &v, f.opts)
+		return outcome{Val: renderAny(&v), Err: classify(err)}
+	case 1:
+		var v histEmb
+		err := json.Unmarshal(in, &v, f.opts, jsonv1.ReportErrorsWithLegacySemantics(true))
+		return outcome{Val: renderAny(&v), Err: classify(err)}
+	case 2:
+		v := histEmb{histInner: &histInner{}}
+		err := json.Unmarshal(in, &v, f.opts)
+		return outcome{Val: renderAny(&v), Err: classify(err)}
+	case 3:
+		v := histPlain{X: len(in), S: sp.Input[:8], L: []int{1, 2, 3, len(in)}, M: map[string]string{"k": "v", "a": sp.Input[:3]}}
+		out, err := json.Marshal(&v, f.opts)
+		h.keep(0, "Marshal result", out)
+		return outcome{Out: string(out), Err: classify(err)}
+	case 4:
+		var v map[string]int
+		err := json.Unmarshal(in, &v, f.opts)
+		return outcome{Val: renderAny(&v), Err: classify(err)}
+	case 5:
+		var v histPlain
+		err := json.Unmarshal(in, &v, jsonv1.DefaultOptionsV1(), f.opts)
+		return outcome{Val: renderAny(&v), Err: classify(err)}
+	case 6:
+		var v histEmb
+		err := json.Unmarshal(in, &v, f.opts)
+		return outcome{Val: renderAny(&v), Err: classify(err)}
+	default:
+		var x any
+		json.Unmarshal(in, &x, jsontext.AllowDuplicateNames(true))
+		out, err := json.Marshal([]any{x, 3, 4, "s", len(in)}, f.opts)
+		h.keep(0, "Marshal result", out)
+		return outcome{Out: string(out), Err: classify(err)}
+	}
 }
 
 func (h *histRun) keep(spec int, what string, b []byte) {
@@ -661,6 +784,8 @@ func (h *histRun) exec(idx int, sp *HistSpec) (o outcome) {
 		}
 	}
 	switch sp.Kind {
+	case hkSharedFuncs:
+		return h.execShared(sp)
 	case hkInvalidType:
 		// the same unusable type at different positions in different calls: the
 		// error (incl. its position) must be the one for THIS call
@@ -753,8 +878,12 @@ func (sc *Hist) Run(t *core.Tape, env *Env) (any, []core.Violation) {
 			core.ResetWorld(true)
 			base[i] = h.exec(i, &p.Specs[i])
 			if strings.HasPrefix(base[i].Panic, "LIBRARY PANIC") {
-				report("C20", "C20/panic", hkNames[p.Specs[i].Kind], "spec %d alone: %s", i, base[i].Panic)
-				return p, viols
+				// C20's business; for C18 the history goes on (a call that panics the
+				// same way alone and inside the history is not history-dependent, but
+				// what it leaves behind for later calls is still checked)
+				if report("C20", "C20/panic", hkNames[p.Specs[i].Kind], "spec %d alone: %s", i, base[i].Panic) || env.Prop != "C18" {
+					return p, viols
+				}
 			}
 		}
 	}
@@ -762,7 +891,7 @@ func (sc *Hist) Run(t *core.Tape, env *Env) (any, []core.Violation) {
 
 	// The history.
 	sched := core.NewSched()
-	h := &histRun{env: env, plan: p}
+	h := &histRun{env: env, plan: p, shared: newSharedFuncs()}
 	multi := len(p.Tasks) > 1
 	if multi {
 		h.yield = sched.Yield
@@ -811,7 +940,7 @@ func (sc *Hist) Run(t *core.Tape, env *Env) (any, []core.Violation) {
 		if !done[i] {
 			continue
 		}
-		if strings.HasPrefix(got[i].Panic, "LIBRARY PANIC") {
+		if strings.HasPrefix(got[i].Panic, "LIBRARY PANIC") && !strings.HasPrefix(base[i].Panic, "LIBRARY PANIC") {
 			if report("C20", "C20/panic", hkNames[p.Specs[i].Kind], "spec %d inside the history: %s", i, got[i].Panic) {
 				return p, viols
 			}
@@ -984,11 +1113,12 @@ func RunRace(seed uint64, goroutines int, dur time.Duration) *RaceResult {
 	var calls atomic.Int64
 	t0 := time.Now()
 	deadline := t0.Add(dur)
+	shared := newSharedFuncs()
 	for g := 0; g < goroutines; g++ {
 		wg.Add(1)
 		go func(g int) {
 			defer wg.Done()
-			h := &histRun{env: env}
+			h := &histRun{env: env, shared: shared}
 			r := core.Mix(seed, uint64(g))
 			for time.Now().Before(deadline) {
 				r = core.Mix(r, 1)
